@@ -46,7 +46,8 @@ THEOREMS = [
     "Lineno.inherited_field_line_correct_partial", "Lineno.report_on_inheriting_object_wrong",
     "Lineno.attr_field_only_correct", "Lineno.attr_own_only_correct", "Lineno.attr_both_partial",
     "Lineno.attr_both_counterexample",
-    "Lineno.doc_assignment_keeps_old_base", "Lineno.doc_assignment_line_partial", "Lineno.doc_assignment_counterexample",
+    "Lineno.doc_assignment_line_correct", "Lineno.doc_assignment_field_line_correct_partial",
+    "Lineno.doc_assignment_keeps_old_base_old", "Lineno.doc_assignment_old_counterexample",
     # google / numpy
     "Lineno.converted_formats_in_range_partial", "Lineno.converted_formats_in_range_counterexample",
     "Lineno.napoleon_param_divergence_google", "Lineno.napoleon_param_divergence_numpy",
@@ -62,7 +63,7 @@ PARTIAL = {
         "longer than the margin cleandoc removes (noOverIndent = false); witness docstring_lineno_correct_counterexample "
         "(open finding line:overindented-leading-blank)",
     "Lineno.reported_line_correct_*_partial, inherited_field_line_correct_partial, reported_line_correct_consolidated_partial, "
-    "classifier_xref_line_correct_partial":
+    "classifier_xref_line_correct_partial, doc_assignment_field_line_correct_partial":
         "only the layout hypothesis noOverIndent (same finding)",
     "Lineno.reported_line_correct_rst_error_partial":
         "additionally the false hypothesis that docutils counts lines from 0; with the real base every reST markup error is "
@@ -73,10 +74,6 @@ PARTIAL = {
     "Lineno.attr_both_partial":
         "an attribute documented by a class field and by its own docstring: right only if both docstrings start on the same line, "
         "i.e. never (attr_both_counterexample; open finding line:attr-field-and-inline-docstring)",
-    "Lineno.doc_assignment_line_partial":
-        "a text assigned to obj.__doc__ is located from the definition's old docstring_lineno (or def line): right only if that "
-        "equals the assigned literal's first text line, i.e. never (doc_assignment_counterexample; open finding "
-        "line:doc-assignment:keeps-old-lineno)",
     "Lineno.type_warning_one_low":
         "states the defect: --process-types warnings of a type field are one line low for every field "
         "(open finding line:processtypes-type-warning:+1)",
